@@ -1,6 +1,7 @@
 import QProofs.GraphSkeleton
 import QProofs.SkeletonProof
 import QProofs.GenInstsOK
+import QProofs.PipelineWF
 /-!
 # C02 — quantization preserves the graph skeleton and the model I/O contract
 -/
@@ -39,5 +40,12 @@ theorem modify_skeleton (pt : PTable) (m m' : Model) (reqs : List TReq)
   | ok tis =>
     simp only [hg] at h
     exact performer_skeleton pt m m' tis hwf htag (GenInstsOK.genInsts_ok pt m reqs tis hwf hnames hreq hg) h
+
+/-- **C02, end to end**: for every model in converter normal form, every recipe, regex semantics
+    and statistics, the graph returned by `quantize()` has exactly the input's skeleton and I/O contract -/
+theorem quantize_skeleton (rx : String → String → Bool) (env : Mat.Env) (st : Recipe.State) (qsvs : Option Mat.Qsvs)
+    (m' : Model) (tbl : List Mat.Param) (hnf : PipelineWF.NF env st)
+    (h : Pipeline.quantizePure rx env st qsvs = .ok (m', tbl)) : Skeleton.sameModelSkeleton env.model m' = true :=
+  PipelineWF.quantizePure_skeleton rx env st qsvs m' tbl hnf h
 
 end C02
